@@ -390,6 +390,8 @@ impl Simulation {
         // immediately re-scheduled.
         fn pull_next_action(scheduler_queue: &mut MutexGuard<SchedulerQueue>) -> Action {
             let ((time, channel_id), action) = scheduler_queue.pull().unwrap();
+            #[cfg(feature = "verif-hooks")]
+            crate::verif_hooks::probe(crate::verif_hooks::site::STEP_ACTION_PULLED, channel_id);
             if let Some((action_clone, period)) = action.next() {
                 scheduler_queue.insert((time + period, channel_id), action_clone);
             }
@@ -416,11 +418,15 @@ impl Simulation {
 
         // Move to the next scheduled time.
         let mut scheduler_queue = self.scheduler_queue.lock().unwrap();
+        #[cfg(feature = "verif-hooks")]
+        crate::verif_hooks::probe(crate::verif_hooks::site::STEP_LOCKED, 0);
         let mut current_key = match peek_next_key(&mut scheduler_queue) {
             Some(key) => key,
             None => return Ok(None),
         };
         self.time.write(current_key.0);
+        #[cfg(feature = "verif-hooks")]
+        crate::verif_hooks::probe(crate::verif_hooks::site::STEP_TIME_WRITTEN, 0);
 
         loop {
             let action = pull_next_action(&mut scheduler_queue);
@@ -458,6 +464,8 @@ impl Simulation {
                     drop(scheduler_queue); // make sure the queue's mutex is released.
 
                     let current_time = current_key.0;
+                    #[cfg(feature = "verif-hooks")]
+                    crate::verif_hooks::probe(crate::verif_hooks::site::STEP_BEFORE_SYNC, 0);
                     if let SyncStatus::OutOfSync(lag) = self.clock.synchronize(current_time) {
                         if let Some(tolerance) = &self.clock_tolerance {
                             if &lag > tolerance {
@@ -492,6 +500,8 @@ impl Simulation {
                 // No actions are scheduled before or at the target time.
                 Ok(None) => {
                     // Update the simulation time.
+                    #[cfg(feature = "verif-hooks")]
+                    crate::verif_hooks::probe(crate::verif_hooks::site::STEP_UNTIL_BEFORE_FINAL_WRITE, 0);
                     self.time.write(target_time);
                     self.clock.synchronize(target_time);
                     return Ok(());
